@@ -248,20 +248,47 @@ where
     ExecReport { outcome, sched }
 }
 
-/// Shrink a failing decision trace: replace runs of decisions by "keep the current task" while
-/// the same outcome class persists. Returns the concrete trace of the last failing run.
+/// Shrink a failing decision trace while the same outcome class persists:
+/// 1. shortest failing prefix (everything after it becomes "keep the running task"),
+/// 2. inside the prefix, replace chunks of decisions by "keep the running task" (ddmin style).
+/// Returns the minimised trace in replayable form: recorded decisions with `WILDCARD` entries,
+/// cut after the last recorded decision (the scheduler continues with "keep the running task").
 pub fn minimise_trace<F>(trace: &[u16], class: &str, run: &F) -> Vec<u16>
 where
     F: Fn(Vec<u16>) -> (String, Vec<u16>),
 {
     use crate::sched::WILDCARD;
-    let mut cur: Vec<u16> = trace.to_vec();
-    let mut best_concrete: Vec<u16> = trace.to_vec();
+    let mut budget = 260i32;
+    let mut _best_concrete: Vec<u16> = trace.to_vec();
+    let try_run = |cand: &Vec<u16>, budget: &mut i32| -> Option<Vec<u16>> {
+        *budget -= 1;
+        let (c, concrete) = run(cand.clone());
+        if c == class {
+            Some(concrete)
+        } else {
+            None
+        }
+    };
+    // 1. shortest prefix: binary search on the number of recorded decisions that are kept
+    let mut lo = 0usize; // prefix of length lo is not known to fail
+    let mut hi = trace.len(); // the full trace fails
+    while lo < hi && budget > 0 {
+        let mid = (lo + hi) / 2;
+        let cand: Vec<u16> = trace[..mid].to_vec();
+        match try_run(&cand, &mut budget) {
+            Some(concrete) => {
+                hi = mid;
+                _best_concrete = concrete;
+            }
+            None => lo = mid + 1,
+        }
+    }
+    let mut cur: Vec<u16> = trace[..hi].to_vec();
+    // 2. wildcard chunks inside the prefix
     let mut chunk = (cur.len() / 2).max(1);
-    let mut budget = 200;
-    while chunk >= 1 && budget > 0 {
-        let mut i = 0;
+    loop {
         let mut progressed = false;
+        let mut i = 0;
         while i < cur.len() && budget > 0 {
             let end = (i + chunk).min(cur.len());
             if cur[i..end].iter().all(|d| *d == WILDCARD) {
@@ -272,24 +299,22 @@ where
             for d in &mut cand[i..end] {
                 *d = WILDCARD;
             }
-            budget -= 1;
-            let (c, concrete) = run(cand.clone());
-            if c == class {
+            if let Some(concrete) = try_run(&cand, &mut budget) {
                 cur = cand;
-                // the run may have been shorter than the candidate
-                cur.truncate(concrete.len().max(1));
-                best_concrete = concrete;
+                _best_concrete = concrete;
                 progressed = true;
             }
             i = end;
         }
-        if chunk == 1 && !progressed {
+        if budget <= 0 || (chunk == 1 && !progressed) {
             break;
         }
-        chunk = if chunk > 1 { chunk / 2 } else { 1 };
-        if chunk == 1 && !progressed {
-            // one last pass at granularity 1 happened
+        if chunk > 1 {
+            chunk /= 2;
         }
     }
-    best_concrete
+    while cur.last() == Some(&WILDCARD) {
+        cur.pop();
+    }
+    cur
 }
